@@ -331,6 +331,35 @@ func (r *registry) describe(p []byte) []run {
 	return runs
 }
 
+// describeBlocks describes a payload block by block (block = 0: maximal runs):
+// each block is located in a self-identifying source by its first bytes and
+// then verified in full; one run per block, never merged.
+func (r *registry) describeBlocks(p []byte, block int) []run {
+	if block <= 0 {
+		return r.describe(p)
+	}
+	var runs []run
+	for i := 0; i < len(p); i += block {
+		b := p[i:min(i+block, len(p))]
+		src, off := r.identify(b)
+		if src != nil {
+			chk := make([]byte, len(b))
+			n, _ := src.ReadAt(chk, off)
+			if n == len(b) && bytes.Equal(chk, b) {
+				runs = append(runs, run{Srcs: []string{src.Name()}, Off: pos(off), Len: len(b)})
+				continue
+			}
+		}
+		if len(b) < 16 {
+			// too short to carry a whole aligned pattern word: cannot be located, only counted
+			runs = append(runs, run{Srcs: []string{"?short"}, Off: pos(0), Len: len(b)})
+			continue
+		}
+		runs = append(runs, run{Srcs: []string{}, Off: pos(0), Len: len(b)})
+	}
+	return runs
+}
+
 // identify finds the patterned source and offset the beginning of p comes from.
 func (r *registry) identify(p []byte) (*patSource, int64) {
 	if len(p) < 8 {
